@@ -562,16 +562,13 @@ class NodeDeref:
 
         if value.isObject():
             member = idx.asString().value
-            exists = value.hasItem(member)
-            while not exists and value.hasItem("_proto_"):
-                value = value.getItem("_proto_")
-                exists = value.hasItem(member)
-            if not exists:
+            holder = value.findHolder(member)
+            if holder is None:
                 if self.default_value:
                     return self.default_value.evaluate(environment)
                 else:
                     return NULL
-            return value.getItem(member)
+            return holder.getItem(member)
 
         raise CklRuntimeError(
             ValueString("ERROR"), f"Cannot dereference value {value}", self.pos
@@ -667,12 +664,8 @@ class NodeDerefInvoke:
     def evaluate(self, environment):
         obj_ = self.objectExpr.evaluate(environment)
         if obj_.isObject():
-            obj = obj_
-            exists = obj.hasItem(self.member)
-            while not exists and obj.hasItem("_proto_"):
-                obj = obj.getItem("_proto_")
-                exists = obj.hasItem(self.member)
-            if not exists:
+            obj = obj_.findHolder(self.member)
+            if obj is None:
                 raise CklRuntimeError(
                     ValueString("ERROR"),
                     f"Member {self.member} not found",
